@@ -22,9 +22,9 @@ const addr = "127.0.0.1:4000"
 
 func init() {
 	vexplore.Register("C16", func(tier string) []*vexplore.Scenario {
-		b, L := 1, 4
+		b, L := 2, 5
 		if tier == "thorough" {
-			b, L = 2, 6
+			b, L = 3, 7
 		}
 		return []*vexplore.Scenario{
 			{Name: "handshake-single-byte-deviation", Mode: "enum", Reset: kit.ResetGlobals, Body: hsDeviation, NeedCounters: []string{"rejected", "good-peer-after"}},
